@@ -62,6 +62,8 @@ EXTRA_OVERLAY = {"sim__new.rs": ("sim.rs", "verif_kani_new"), "sim__device__time
     "sim__device__h.rs": ("sim/device.rs", "verif_kani_h"),
     "sim__frame__h.rs": ("sim/frame.rs", "verif_kani_h"),
     "sim__mem__h.rs": ("sim/mem.rs", "verif_kani_h"),
+    "asm__encoding__deser.rs": ("asm/encoding.rs", "verif_kani_deser"),
+    "sim__frame__sig.rs": ("sim/frame.rs", "verif_kani_sig"),
 }
 # harness files that are included as child modules of a generated module (see kani/<module>.extract.json): file -> owning module
 CHILD_OF_GEN = {"asm__objblock.rs": "asm.rs"}
@@ -75,6 +77,7 @@ MODULE_NEEDS = {
     "sim__device__poll.rs": ["sim__device.rs"],
     "sim__device__h.rs": ["sim__device.rs"],
     "sim__frame__h.rs": ["sim__frame.rs", "sim__mem.rs"],
+    "sim__frame__sig.rs": ["sim__frame.rs", "sim__mem.rs"],
     "sim__mem__h.rs": ["sim__mem.rs"],
     "sim__debug.rs": ["sim.rs", "sim__mem.rs", "sim__frame.rs", "sim__device.rs"],
     "asm.rs": [],
